@@ -48,6 +48,7 @@ func genC12(driver string, col *ev.Collector) func(*rapid.T) c12Case {
 	return func(t *rapid.T) c12Case {
 		cfg := universe.DefaultConfig(driverSystem(driver))
 		cfg.UnknownReqs = driver != drvMavenOverride
+		cfg.DottedNames = os.Getenv("VERIF_GREM_DOTTED") != "" // off by default: package.json writer finding of C13
 		c := c12Case{Driver: driver, Scenario: universe.GenScenario(t, cfg), MaxUpgrades: 1}
 		if directVsRange(c.Scenario) && c11Known.IsKnown("c11."+clsDirectVsRange) {
 			// FixVulns does not terminate on these (finding of C11); nothing to compare
@@ -276,7 +277,7 @@ func propC12(c c12Case) (ev.Outcome, error) {
 
 func runC12(t *testing.T, driver string) {
 	col := ev.Get("C12")
-	ev.Check(t, col, ev.Scale(500, 8000), genC12(driver, col), propC12)
+	ev.Check(t, col, ev.Scale(1200, 8000), genC12(driver, col), propC12)
 }
 
 func TestC12_npm_relax(t *testing.T)      { runC12(t, drvNpmRelax) }
